@@ -108,6 +108,28 @@ func propC13(t *rapid.T) {
 	restore := inst.FaultsAsPanics()
 	defer restore()
 	view := roaring.New()
+	recvName := "fresh"
+	var oldGuard *inst.Guard
+	switch rapid.IntRange(0, 3).Draw(t, "receiver") {
+	case 1: // a bitmap that holds other values (more chunks than the image, or fewer)
+		n := rapid.SampledFrom([]int{1, 2, 5, 40}).Draw(t, "oldchunks")
+		for k := 0; k < n; k++ {
+			view.AddRange(uint64(k)<<16+3, uint64(k)<<16+9)
+		}
+		recvName = fmt.Sprintf("previously holding %d chunks", n)
+	case 2: // a bitmap that is currently a view of another frozen image
+		ob := roaring.BitmapOf(1, 2, 3, 70000, 200000)
+		ob.AddRange(300000, 400000)
+		ofr, _ := ob.Freeze()
+		oldGuard = inst.NewGuard(ofr, false)
+		oldGuard.ReadOnly()
+		defer oldGuard.Free()
+		if err := view.FrozenView(oldGuard.Data); err != nil {
+			fail("harness: %v", err)
+		}
+		recvName = "previously a view of another image"
+	}
+	inst.Count("C13", "view-receiver:"+recvName[:5])
 	must := rapid.Bool().Draw(t, "must")
 	if must {
 		err = view.MustFrozenView(g.Data)
@@ -118,10 +140,10 @@ func propC13(t *rapid.T) {
 		err = view.FrozenView(g.Data)
 	}
 	if err != nil {
-		fail("FrozenView(must=%v) of Freeze() bytes: %v", must, err)
+		fail("FrozenView(must=%v) of Freeze() bytes into a receiver %s: %v", must, recvName, err)
 	}
 	if !view.Equals(b) || !b.Equals(view) {
-		fail("FrozenView not Equals the original")
+		fail("FrozenView (receiver %s) not Equals the original", recvName)
 	}
 	if origValid {
 		if err := view.Validate(); err != nil {
